@@ -582,7 +582,52 @@ class Interp:
             return self.load(obj.arr.fieldview(idx) if obj.arr.field is None else obj.arr, obj.key)
         if isinstance(obj, list):
             return obj[self.concretise(idx)]
+        if isinstance(obj, np.ndarray) and not obj.dtype.names:
+            return self.table_lookup(obj, idx)
         raise Unsupported(f"getitem on {type(obj).__name__}")
+
+    def table_lookup(self, table, idx):
+        """a module-level constant array (lookup table) indexed by a possibly symbolic leading index: an if-then-else
+        chain over its rows; numba does no bounds checking, so an index outside the table yields an unconstrained value"""
+        import numba
+        ety = numba.from_dtype(table.dtype)
+        key = idx if isinstance(idx, tuple) else (idx,)
+        lead, rest = key[0], key[1:]
+        if not isinstance(lead, Sym):
+            if not -table.shape[0] <= int(lead) < table.shape[0]:
+                # out of range and no bounds check in compiled code: unconstrained content
+                sub_shape = table.shape[1:]
+                if rest or not sub_shape:
+                    return self.fresh(ety, "oob")
+                out = NArr(ety, sub_shape, name="oobrow")
+                out.store = [self.fresh(ety, "oob") for _ in range(int(np.prod(sub_shape)))]
+                return out
+            sub = table[int(lead)]
+            if rest:
+                return self.table_lookup(sub, rest if len(rest) > 1 else rest[0]) if isinstance(sub, np.ndarray) else sub
+            if isinstance(sub, np.ndarray):
+                out = NArr(ety, sub.shape, name="tbl")
+                out.store = [sub.ravel()[k].item() for k in range(sub.size)]
+                return out
+            return sub.item()
+        if rest:
+            raise Unsupported("symbolic leading index with further indices into a constant table")
+        ity = _unlit(lead.ty)
+        it = self.term(lead, ity)
+        sub_shape = table.shape[1:]
+        n_el = int(np.prod(sub_shape)) if sub_shape else 1
+        flat = table.reshape(table.shape[0], n_el)
+        outs = []
+        for e in range(n_el):
+            acc = self.fresh(ety, "oob").t          # out of range: whatever lies behind the table
+            for r in range(table.shape[0] - 1, -1, -1):
+                acc = z3.If(it == self.const(r, ity), self.const(flat[r, e].item(), ety), acc)
+            outs.append(Sym(acc, ety))
+        if not sub_shape:
+            return outs[0]
+        out = NArr(ety, sub_shape, name="tblrow")
+        out.store = outs
+        return out
 
     def setitem(self, obj, idx, v, vty):
         if isinstance(obj, RecRef):
